@@ -68,7 +68,7 @@ def build(tier, known):
             cfgs.append(('enum_bytes', dict(n=n, kind='enum', strict=strict, ascii_only=False), 'ALL byte strings; item lookup uninterpreted; symbolic 2-row table'))
     hs.append(Harness('n_attr_text', 'data', 'parser.rs', '', functions=[], bound='', claim='', role='native'))
     for strict in (True, False):
-        for ascii_only, nmax in ((True, 6 if q else 8), (False, 3 if q else 4)):
+        for ascii_only, nmax in ((True, 5 if q else 7), (False, 3 if q else 4)):
             for n in range(0, nmax + 1):
                 dom = 'all ASCII texts' if ascii_only else 'ALL byte strings (incl. invalid UTF-8)'
                 hs.append(E2Spec(f'e2_c02_attrtext_{"ascii" if ascii_only else "bytes"}_{"strict" if strict else "lenient"}_n{n}', 'AttrText',
